@@ -1,4 +1,4 @@
-"""C03 -- extract preserves behaviour or is refused (VGC rules R03.1-R03.14)."""
+"""C03 -- extract preserves behaviour or is refused (VGC rules R03.1-R03.15)."""
 from __future__ import annotations
 
 import ast
@@ -21,6 +21,7 @@ EXPLANATION = (
     "summary, similar-code replacement and placement arithmetic are not decided."
     ' R03.14: after every filing of an in-region write (conditional or not) the loop-carried check is passed.'
 )
+EXPLANATION += ' R03.15: a function that remembers its answer under a key reads, in the computation of the remembered value, nothing of its parameters that the key does not contain (followed into the helpers it calls).'
 ASSUMPTIONS = [
     "the break/continue finder lacking AsyncFor and the missing scope cuts of the return counter only cause over-refusal, which the property allows: recorded as exceptions, not armed (R03.5 arms only the under-refusal direction: else clauses)",
     "IfExp/BoolOp conditional evaluation matters only with a walrus inside: not armed",
@@ -62,7 +63,7 @@ def yield_counter_rule(ctx, res, rule: str) -> None:
                 "(the extracted call site no longer yields)")
 
 
-def check(ctx, res) -> None:
+def _check_body(ctx, res) -> None:
     idx = ctx.idx
     v = vgc_mod.get(ctx)
     coll = idx.need_class(COLLECTOR)
@@ -471,3 +472,10 @@ def check(ctx, res) -> None:
                 f"_SuiteWalker does not open a suite for {c}.{missing} ({'no handler' if h is None else h.qualname}): find_visible treats statements inside "
                 "as belonging to the enclosing suite, so a definition extracted for several uses can be placed inside the block and used after it")
     res.floor("R03.6", "compound statements", n6, 10)
+
+
+def check(ctx, res) -> None:
+    _check_body(ctx, res)
+    from .common import memo_key_rule
+
+    memo_key_rule(ctx, res, "R03.15", ("rope.refactor.similarfinder", "rope.refactor.wildcards", "rope.refactor.extract"))
